@@ -48,6 +48,25 @@ func runC06(r *Runner, g *Gen, tier string) string {
 			r.Do(op, len(pre) > 0, "app.repeat")
 		}
 	}
+	// the value changes in place between two Marshal calls (same map objects, same backing arrays, same pointees)
+	for i := 0; i < scale(tier, 800, 60000); i++ {
+		cfg := g.pickCfg()
+		t := g.structType(2)
+		if g.r.P(40) {
+			// maps below a length-prefixed struct, sizes that differ between the two values
+			inner := Struct(F("M", "1", Map(B("str"), B("str"))), F("L", "2", Slice(B("str"))), F("P", "3", Ptr(B("str"))))
+			t = Struct(F("N", "1", inner), F("S", "2", Slice(inner)), F("Q", "3", Ptr(inner)))
+		}
+		b1, b2 := 30, 30
+		v1, v2 := g.Value(t, &b1), g.Value(t, &b2)
+		if g.r.P(50) {
+			v2 = sameShape(g, t, v1) // same entry counts and lengths, other contents
+		}
+		if multiEntryMaps(v1) || multiEntryMaps(v2) {
+			continue
+		}
+		r.Do(codecOp("mut", cfg, t, "", v1.Sexp(), v2.Sexp()), true, "mut")
+	}
 	// widest varints and fixed-width values with every amount of spare capacity up to a little beyond the encoding
 	wide := Struct(F("A", "1", B("uint64")), &FieldDef{Name: "B", Exported: true, Plenc: "2,flat", T: B("int64")}, F("C", "3", B("int64")),
 		F("T", "4", &TyDef{K: "time"}), F("F", "5", B("f64")), F("S", "6", B("str")))
@@ -123,6 +142,7 @@ func runC10(r *Runner, g *Gen, tier string) string {
 		}
 		r.Do(codecOp("decm", cfg, t, "", v.Sexp(), A("zero")), nontrivialVal(t, v), "decm.fresh-after")
 	}
+	poolHistories(r, g, scale(tier, 150, 6000))
 	// the protobuf repeated form appends: every (prior length, new length) around the growth steps 0 -> 8 -> 16
 	strs := func(n int, p string) *Val {
 		out := &Val{K: "l"}
@@ -201,6 +221,126 @@ func runC10(r *Runner, g *Gen, tier string) string {
 		}
 	}
 	return "pairs (prior target contents, encoded value) of one generated type: Unmarshal into a target pre-populated with an unrelated value (longer/shorter slices, populated maps, non-nil pointers), then into a fresh variable through the same instance; compared: the full target value after each call (merge rules) ; the instance is shared by all ops of the run (pools, intern tables, codec caches carry history)"
+}
+
+// sameShape: a value with the same structure as v (same presence, same lengths,
+// same map keys) whose strings and byte slices have other lengths and whose
+// numbers differ.
+func sameShape(g *Gen, t *TyDef, v *Val) *Val {
+	u := t.under()
+	switch v.K {
+	case "s":
+		return &Val{K: "s", Data: append(append([]byte(nil), v.Data...), g.r.Bytes(1+g.r.Intn(200))...)}
+	case "y":
+		return &Val{K: "y", Data: append(append([]byte(nil), v.Data...), g.r.Bytes(1+g.r.Intn(200))...)}
+	case "i":
+		return &Val{K: "i", I: v.I ^ 0x55}
+	case "u":
+		return &Val{K: "u", U: v.U ^ 0x55}
+	case "p":
+		if v.P == nil {
+			return v
+		}
+		return &Val{K: "p", P: sameShape(g, u.Elem, v.P)}
+	case "l":
+		out := &Val{K: "l"}
+		for _, e := range v.L {
+			out.L = append(out.L, sameShape(g, u.Elem, e))
+		}
+		return out
+	case "m":
+		out := &Val{K: "m"}
+		for _, e := range v.M {
+			out.M = append(out.M, [2]*Val{e[0], sameShape(g, u.Elem, e[1])})
+		}
+		return out
+	case "r":
+		out := &Val{K: "r"}
+		j := 0
+		for _, f := range u.Fields {
+			if !fieldEncoded(f) {
+				continue
+			}
+			out.L = append(out.L, sameShape(g, f.T, v.L[j]))
+			j++
+		}
+		return out
+	}
+	return v
+}
+
+// poolHistories: a decode that FAILS part-way (inside a map key, a map value, a
+// slice element, a nested struct) may leave half-written scratch values in the
+// instance's pools; the decodes that follow, into fresh variables, must not see them.
+func poolHistories(r *Runner, g *Gen, n int) {
+	key := Struct(F("A", "1", B("int")), F("B", "2", B("str")), F("C", "3", B("uint16")))
+	types := []*TyDef{
+		Struct(F("M", "1", Map(key, B("int")))),
+		Struct(&FieldDef{Name: "M", Exported: true, Plenc: "1,proto", T: Map(key, B("int"))}),
+		Struct(F("M", "1", Map(key, Ptr(key)))),
+		Struct(F("M", "1", Map(B("str"), key)), F("L", "2", Slice(key))),
+		Map(key, B("str")),
+	}
+	full := func(a int64, b string, c uint64) *Val {
+		return &Val{K: "r", L: []*Val{{K: "i", I: a}, {K: "s", Data: []byte(b)}, {K: "u", U: c}}}
+	}
+	for i := 0; i < n; i++ {
+		cfg := g.pickCfg()
+		t := types[g.r.Intn(len(types))]
+		// 1. a valid encoding with fully populated keys, damaged so that a later part of a key / value fails
+		var poison *Val
+		entry := func(k *Val) [2]*Val {
+			switch {
+			case t.K == "map" || t.Fields[0].T.Elem.K == "int":
+				if t.K == "map" {
+					return [2]*Val{k, {K: "s", Data: []byte("v")}}
+				}
+				return [2]*Val{k, {K: "i", I: 1}}
+			case t.Fields[0].T.Elem.K == "ptr":
+				return [2]*Val{k, {K: "p", P: full(5, "pv", 6)}}
+			}
+			return [2]*Val{{K: "s", Data: []byte("k")}, k}
+		}
+		mk := func(k *Val) *Val {
+			m := &Val{K: "m", M: [][2]*Val{entry(k)}}
+			if t.K == "map" {
+				return m
+			}
+			out := &Val{K: "r", L: []*Val{m}}
+			if len(t.Fields) > 1 {
+				out.L = append(out.L, &Val{K: "l", L: []*Val{k}})
+			}
+			return out
+		}
+		poison = mk(full(int64(70+g.r.Intn(9)), "stale-string", uint64(300+g.r.Intn(9))))
+		res := execOp(codecOp("enc", cfg, t, "", poison.Sexp()))
+		if !strings.HasPrefix(res, "ok x") {
+			continue
+		}
+		enc, _ := unhx(res[3:])
+		for k := 0; k < 3 && len(enc) > 4; k++ {
+			m := append([]byte(nil), enc...)
+			switch g.r.Intn(3) {
+			case 0:
+				m = m[:len(m)-1-g.r.Intn(len(m)/2)] // cut inside the last entry
+			case 1:
+				p := len(m)/2 + g.r.Intn(len(m)/2)
+				m[p] |= 0x80 // a length / varint somewhere in the second half grows
+			case 2:
+				p := len(m)/2 + g.r.Intn(len(m)/2)
+				m[p] = 0xff
+			}
+			r.Do(codecOp("dec", cfg, t, "", A(hx(m)), A("zero")), true, "pool.poison")
+		}
+		// 2. valid values whose keys / elements leave fields at zero, into fresh variables
+		for k := 0; k < 2; k++ {
+			sparse := full(0, "x", 0)
+			if k == 1 {
+				sparse = full(0, "", 7)
+			}
+			r.Do(codecOp("decm", cfg, t, "", mk(sparse).Sexp(), A("zero")), true, "pool.fresh-after")
+		}
+	}
 }
 
 // reuseCase: containers of structs and of pointers to structs whose target is
